@@ -383,6 +383,12 @@ def coq_eval_sharded(header, case_terms, result_expr, shards=None, per_shard=400
 
     with ThreadPoolExecutor(nshards) as ex:
         outs = list(ex.map(run, range(nshards)))
+    # a shard whose coqc was killed (the kernel's OOM killer when many large shards run side by side) or timed out says
+    # nothing about the cases: run those shards again, one at a time
+    for k in range(nshards):
+        f, e = outs[k]
+        if f is None and e is not None and ("Killed" in e or "Out of memory" in e or e.strip() == ""):
+            outs[k] = run(k)
     fails, errs = [], []
     for f, e in outs:
         if f is None:
